@@ -547,7 +547,7 @@ def check(pid, argv=None):
     ]
     if run.replay:
         rp = json.load(open(run.replay))["replay"]
-        run.cov["traces_validated_against_impl"] = 1
+        run.cov["traces_validated_against_impl"] = 1 if rp["part"] == "A" else 0
         if rp["part"] == "A":
             r = run_case_ctx(rp["case"], rp["salt"], rp.get("ctx", "plain"))
             for key, desc in r["findings"]:
